@@ -129,8 +129,8 @@ class Classifier:
             return "pure"
         if fn in ("core::ops::Deref::deref", "core::ops::DerefMut::deref_mut") and res != fn:
             return "pure" if res.startswith("<core::mem::ManuallyDrop") else "foreign"
-        if "trait" in f and res == fn:
-            return "foreign"  # dispatch on a generic type: caller-supplied impl
+        if "trait" in f and res == fn and not (targs and all(x.get("k") == "prim" for x in targs)):
+            return "foreign"  # dispatch on a generic type: caller-supplied impl (a provided method at primitive types, e.g. `usize::min`, is std code)
         if f.get("trait") in ("core::iter::Iterator", "core::iter::DoubleEndedIterator", "core::iter::ExactSizeIterator") \
                 and f.get("method") in ("next", "next_back", "size_hint", "len") and targs and code_free_iter(targs[0]):
             return "pure"  # polling a std slice iterator (or std adaptors over them) runs no caller code
